@@ -305,7 +305,7 @@ def traced(spec: dict) -> dict:
         import time as _time
         while True:
             try:
-                ev = qo.get(timeout=0.25)
+                ev = qo.get(timeout=0.6 if policy['kind'] == 'withhold' else 0.25)
             except queue.Empty:
                 release()          # nothing has happened for a while: everything that can progress has progressed
                 continue
